@@ -1,8 +1,13 @@
 #!/usr/bin/env python3
-"""Regenerates MANIFEST.json from tools/manifest_src.json + the check modules present (vf/checks/cNN.py)."""
+"""Regenerates MANIFEST.json from manifest.d/Cxx.json + the check modules present (vf/checks/cNN.py)."""
 import json, os, sys
 V = os.path.dirname(os.path.dirname(os.path.abspath(__file__)))
-src = json.load(open(os.path.join(V, 'tools', 'manifest_src.json')))
+src = {'checks': {}, 'notes': 'All checks: ./run.py <id> <tier>; VERIF_SEED seeds every Hypothesis run; known_findings.json is read-only at run time (generated from known_findings.d/ by tools/mkfindings.py at development time).', 'not_applicable': {}}
+for fn in sorted(os.listdir(os.path.join(V, 'manifest.d'))):
+    if fn.endswith('.json'):
+        src['checks'][fn[:-5]] = json.load(open(os.path.join(V, 'manifest.d', fn)))
+if os.path.exists(os.path.join(V, 'tools', 'not_applicable.json')):
+    src['not_applicable'] = json.load(open(os.path.join(V, 'tools', 'not_applicable.json')))
 props = [json.loads(l) for l in open(os.path.join(V, 'properties.jsonl'))]
 checks, na = [], []
 for p in props:
